@@ -34,11 +34,15 @@ still buffered in `client.recv` with an `ErrChannelClosed` reply, is not modelle
 indistinguishable from the `done` branch: `Wait` returns `closed` either way); the `&Message{}` sentinel
 pushed by a close is not a request and is not modelled.
 
-`client.Close` of the requester is split at its two racy points (`closeEnter`: the `isClosed || topic == nil`
-check; `closeDone`: `closeTopic(own)` + `close(client.done)`, which PANICS when `done` is closed already;
-`closeFinish`: `wg.Wait(); isClosed = 1; close(recv)`), so two overlapping calls are schedules of the model.
-Not modelled: `Sub` racing a `Close` of the same client (a pump started between `close(done)` and
-`isCloseing = 1` could send on the closed `recv`) and `CloseQueue` (second call blocks on `interrupt`).
+`client.Close` of the requester is split at its racy points (`closeEnter`: the `isClosed || topic == nil`
+check followed by the atomic `CompareAndSwap(&isCloseing, 0, 1)` — a caller that loses it returns at once;
+`closeDone`: `closeTopic(own)` + `close(client.done)`, which PANICS when `done` is closed already;
+`closeFinish`: `wg.Wait(); isClosed = 1; close(recv)`), so overlapping calls are schedules of the model.
+The code before /repo commit c931423 had no compare-and-swap (`isCloseing` was stored after `close(done)`):
+that version is kept as the configuration `oldClose := true` (never set by a label, `false` in every
+reachable state) — the regression witness `old_close_panics_on_overlap`.
+Not modelled: `Sub` racing a `Close` of the same client beyond the `isCloseing` check, and `CloseQueue`
+(second call blocks on `interrupt`).
 -/
 namespace C36
 
@@ -78,11 +82,12 @@ structure State where
   topicClosed : Bool := false    -- closeTopic / queue.Close replaced the sub and closed `done`
   queueClosed : Bool := false
   reqSub : Bool := false         -- the requester's client subscribed a private topic (client.topic != nil)
+  closing : Bool := false        -- requester's client.isCloseing = 1 (taken by compare-and-swap at the entry of Close)
+  oldClose : Bool := false       -- configuration: the pre-c931423 Close without the compare-and-swap
   closersA : Nat := 0            -- Close calls of the requester's client past the entry check, before close(done)
   closersB : Nat := 0            -- ... past close(done), before isClosed = 1
   clientDone : Bool := false     -- requester's client.done is closed
   clientClosed : Bool := false   -- requester's client.isClosed = 1
-  closeOverlap : Bool := false   -- ghost: some Close call of the requester's client began while another was in flight
 
 inductive Label where
   | new (o : Obj)                        -- NewMessage handed out object o
@@ -200,11 +205,11 @@ def step (s : State) : Label → Option (State × Out)
   | .closeTopic => some ({ s with topicClosed := true }, .ok)
   | .closeQueue => some ({ s with topicClosed := true, queueClosed := true }, .ok)
   | .subReq =>                                                  -- Sub returns at once when closing/closed
-    if s.clientDone || s.clientClosed then some (s, .ok) else some ({ s with reqSub := true }, .ok)
+    if s.closing || s.clientDone || s.clientClosed then some (s, .ok) else some ({ s with reqSub := true }, .ok)
   | .closeEnter =>
     if s.clientClosed || !s.reqSub then some (s, .ok)           -- `isClosed == 1 || topic == nil`: return
-    else some ({ s with closersA := s.closersA + 1,
-                        closeOverlap := s.closeOverlap || decide (0 < s.closersA + s.closersB) }, .blocked)
+    else if s.closing && !s.oldClose then some (s, .ok)         -- lost the compare-and-swap: return
+    else some ({ s with closing := true, closersA := s.closersA + 1 }, .blocked)
   | .closeDone =>
     match s.closersA with
     | 0 => none
